@@ -5,7 +5,11 @@
 // numeric strings — literals, variables and the result of `~` on integers — as operands of the
 // relational operators and of == / != against integers; leaves that contain commas inside brackets:
 // calls max(a, b), min(a, b, c), pick(i, a, b), indexed list and hash literals with two entries, a
-// call as filter argument, one level of nesting),
+// call as filter argument, one level of nesting; large integers 10^14 .. 2^53-1 — literals, variables,
+// attribute / item access, results of max / min / pick and of list / hash literals, and intermediate
+// results of + - * / ^ on them and on medium factors such as 2^26+1 — with every way of turning them into
+// text other than the print tag: `~`, |trim, |join, |length of the spelling, directly and after set,
+// array / hash element, for, include variable, function / filter / macro argument),
 // each printed with several choices of parentheses (minimal per the stated table, full, maximal,
 // whole-expression, and in the thorough tier every subset of the optional pairs) and of spacing,
 // and placed in every syntactic position an expression can stand in. The real engine renders every
@@ -32,7 +36,8 @@ import (
 
 // In the wrappers: \x00 = the expression, \x01 = the expression used as a condition (a conditional
 // is parenthesised), \x02 = the boolean observer suffix (" ? 'T' : 'F'", empty for values),
-// \x03 = optional space, \x04 = mandatory space, \x06 = the expected value (routes only).
+// \x03 = optional space, \x04 = mandatory space, \x05 = padding inside parentheses (wide spacing only),
+// \x06 = the expected value (routes only).
 type position struct {
 	name  string
 	tmpl  string
@@ -76,19 +81,19 @@ var positions = []position{
 	// stringification routes: the value is spelled by `~`, |trim, |join or |length of its spelling instead
 	// of the print tag, directly and after each way of handing it on (set, array / hash element, for,
 	// include variable, function / filter / macro argument)
-	{name: "concat-right", tmpl: "{{\x03(\x03\x00\x03)\x03~\x03''\x03}}", types: "is", route: true},
-	{name: "concat-left", tmpl: "{{\x03''\x03~\x03(\x03\x00\x03)\x03}}", types: "is", route: true},
-	{name: "trim", tmpl: "{{\x03(\x03\x00\x03)|trim\x03}}", types: "is", route: true},
-	{name: "spelling-length", tmpl: "{{\x03((\x03\x00\x03)\x03~\x03'')|length\x03}}", types: "is", route: true},
+	{name: "concat-right", tmpl: "{{\x03(\x05\x00\x05)\x03~\x03''\x03}}", types: "is", route: true},
+	{name: "concat-left", tmpl: "{{\x03''\x03~\x03(\x05\x00\x05)\x03}}", types: "is", route: true},
+	{name: "trim", tmpl: "{{\x03(\x05\x00\x05)|trim\x03}}", types: "is", route: true},
+	{name: "spelling-length", tmpl: "{{\x03((\x05\x00\x05)\x03~\x03'')|length\x03}}", types: "is", route: true},
 	{name: "set-concat", tmpl: "{%\x04set\x04q\x03=\x03\x00\x04%}{{ q ~ '' }}", types: "is", route: true},
 	{name: "array-join", tmpl: "{{\x03[\x030\x03,\x03\x00\x03]|join(',')\x03}}", types: "is", route: true},
 	{name: "hash-concat", tmpl: "{{ {\x03'k'\x03:\x03\x00\x03}[\x03'k'\x03]\x03~\x03''\x03}}", types: "is", route: true},
 	{name: "for-concat", tmpl: "{%\x04for\x04q\x04in\x04[\x03\x00\x03]\x04%}{{ q ~ '' }}{%\x04endfor\x04%}", types: "is", route: true},
 	{name: "include-concat", tmpl: "{%\x04include\x04'p'\x04with\x04{\x03'k'\x03:\x03\x00\x03}\x04%}", sub: "p", body: "{{ k ~ '' }}", types: "is", route: true},
-	{name: "function-concat", tmpl: "{{\x03id(\x03\x00\x03)\x03~\x03''\x03}}", types: "is", route: true},
-	{name: "default-concat", tmpl: "{{\x03null|default(\x03\x00\x03)\x03~\x03''\x03}}", types: "is", route: true},
-	{name: "macro-concat", tmpl: "C{{\x03m(\x03\x00\x03)\x03}}", types: "is", route: true},
-	{name: "if-spelling", tmpl: "{%\x04if\x04(\x03\x00\x03)\x03~\x03''\x03==\x03'\x06'\x04%}T{%\x04else\x04%}F{%\x04endif\x04%}", types: "is", route: true},
+	{name: "function-concat", tmpl: "{{\x03id(\x05\x00\x05)\x03~\x03''\x03}}", types: "is", route: true},
+	{name: "default-concat", tmpl: "{{\x03null|default(\x05\x00\x05)\x03~\x03''\x03}}", types: "is", route: true},
+	{name: "macro-concat", tmpl: "C{{\x03m(\x05\x00\x05)\x03}}", types: "is", route: true},
+	{name: "if-spelling", tmpl: "{%\x04if\x04(\x05\x00\x05)\x03~\x03''\x03==\x03'\x06'\x04%}T{%\x04else\x04%}F{%\x04endif\x04%}", types: "is", route: true},
 }
 
 var forSeq = func() *position {
@@ -139,7 +144,7 @@ func build(pos *position, in *inst, st style, want string) rendering {
 	if s[0] == 'C' {
 		s = macroC + s[1:]
 	}
-	s = strings.NewReplacer("\x00", e, "\x01", cond, "\x02", q, "\x03", opt, "\x04", man, "\x06", want).Replace(s)
+	s = strings.NewReplacer("\x00", e, "\x01", cond, "\x02", q, "\x03", opt, "\x04", man, "\x05", [3]string{"", "", "  "}[st.sp], "\x06", want).Replace(s)
 	if st.sp == spTight {
 		// a delimiter must not fuse with the expression into another lexeme
 		s = strings.ReplaceAll(s, "{{-", "{{ -")
@@ -751,11 +756,16 @@ func main() {
 		Level: "exploration",
 		Rule: "every well-typed expression tree within the operator bounds of the tier (binary operators of all six levels, ?:, unary -/not, filters, " +
 			"numeric strings ('10', \"30\", '-2', variables holding \"9\" \"-1\" \"5\", i ~ i) under < > <= >= and against integers under == != < >=, " +
+			"large integers (999999999999999, 1000000000000000, 4503599627370497, big = 2^53-1, o.g = 10^14, gs[1] = -(2^53-1), the same out of max / min / pick / [..][1] / {..}['k'], " +
+			"and as results of g + i, g - i, i + g, i * g, g / i, m * m and m ^ 2 over the medium factors 2^26+1, 94906265, 31622777, 31622776, 10^7, 2^25) under ~ with strings and each other, " +
+			"== != < >=, g - g, g % i, unary minus, |abs, |trim, " +
 			"attribute/index/literal/variable leaves and comma-containing leaves of the same values (max(2, a), min(b, a, 2), pick(1, a, xs[1]), [a, 12][1], {'k': b, 'j': 2}['k'], " +
 			"max(a, min(b, o.n)), null|default(pick(1, a, s)), pick(0, \"ab\", ','), [max(2, a), b], ...) assigned from fixed pools by rotation, the most discriminating well-defined rotations first, " +
 			"every skeleton both with and without comma-containing leaves wherever two or more rotations are run (single-rotation classes: quick runs the other kind in two styles, thorough alternates by skeleton)), printed with " +
 			"minimal / full / maximal / whole-expression parentheses (thorough: also every subset of the optional pairs) x normal / tight / wide spacing, in every " +
-			"syntactic position (print, if, elseif, set, for, include-with sole / first / second entry, filter / function / macro argument, array element, hash value, index); " +
+			"syntactic position (print, if, elseif, set, for, include-with sole / first / second entry, filter / function / macro argument, array element, hash value, index) " +
+			"and, for integer and string values, through every stringification route (e ~ '', '' ~ e, e|trim, (e ~ '')|length, [0, e]|join, (e) ~ '' == 'value', and q ~ '' after set / hash element / for / include variable / id(e) / default(e) / macro parameter: " +
+			"all trees up to two operators, beyond that the trees in which an integer of magnitude >= 10^14 occurs); " +
 			"one case = one tree skeleton; non-trivial = at least two operators and at least one wrong operator table (levels swapped or merged, right grouping, " +
 			"conditional / unary / filter attaching to the wrong operand) gives the minimal form a different value",
 		Assumptions: []string{
@@ -763,6 +773,7 @@ func main() {
 			"forms the statement leaves open are not generated: not a == b, -a ^ b, -a|abs, string + number, inexact or zero division, % on negatives, exponents outside 0..3, values beyond 2^53, bare printing of booleans, whitespace other than spaces, {..}.k on a literal, ordering of strings that are not canonical decimal integers ('ab', '07', '1.0', ' 9', '1e1'), == between a non-numeric string and a number, substring `in`",
 			"matches is used with /…/-delimited patterns whose meaning is the same in every regular-expression dialect (^a, b$)",
 			"the comma-containing leaves have the obvious values: max / min of integers, pick(i, x0, x1, ...) = x_i (registered by the harness), [x0, x1][i] = x_i, {'k': x, 'j': y}['k'] = x, null|default(x) = x; their value is computed from their structure and asserted equal to the plain leaf they stand in for",
+			"x|trim and x ~ '' of an integer are its canonical decimal spelling, [0, x]|join(',') is '0,' followed by it, |length of a string counts its characters (the obvious meanings; the statement's exact integers within +-2^53 have one decimal spelling)",
 			"trees larger than the tier's bound, and leaf assignments other than the rotations of the fixed pools, are not explored",
 		},
 		QuickDeadline:    150,
@@ -785,6 +796,19 @@ func main() {
 				}
 				if c.nsRep {
 					s += ", numeric strings only under < >= (n,n), == (n,i), != (i,n) and as i ~ i"
+				}
+				switch c.big {
+				case 0:
+					s += ", every large-integer typing"
+				case 1:
+					s += ", large integers only under ~ (g,s) (s,g), g + i, g - g, m * m, == < (g,g), unary minus and |trim"
+				case 2:
+					s += ", no large integers"
+				}
+				if c.routes {
+					s += ", stringification routes for every integer / string tree"
+				} else if c.big < 2 {
+					s += ", stringification routes for the trees with a large integer"
 				}
 				if c.cross {
 					s += ", every parenthesis style x spacing + all optional-pair subsets"
